@@ -96,7 +96,9 @@ impl fmt::Write for Buf {
 
 fn letter() -> u8 {
     let c = any_u8();
-    assume(c >= b'a' && c <= b'z');
+    // a letter, or the token of the leaf type's zero element: a part that is present but zero is
+    // rendered like any other present part
+    assume((c >= b'a' && c <= b'z') || c == b'0');
     c
 }
 
